@@ -9,6 +9,7 @@ import random
 
 KINDS = ["-", "o", "x", "~", "<", ">"]
 DEFAULT_PRIORITY = "P3"
+MAX_YEAR = 2999      # C05-style runs set this to 2099 (ZIDs only carry two year digits)
 
 PLAIN = ["foo", "bar", "Baz_1", "a.b-c", "v1.2", "end.", "(paren)", "word,", "x1", "ok?", "snake_case", "UPPER", "a/b", "e-mail",
          "it's", "100%", "q=1", "*star*", "~tilde", "a&b", "semi;", "colon:", "dash-", "_under", "<angle>"]
@@ -126,7 +127,7 @@ def gen_item(rng, uid):
         d = rand_date(rng); zid = rand_zid(rng, d); cdate = d
         mod = rand_date(rng); first = [short(mod), zid]
     elif ident == "long":
-        cdate = rand_date(rng, 2000, 2999); first = [cdate.strftime("%Y-%m-%d")]
+        cdate = rand_date(rng, 2000, MAX_YEAR); first = [cdate.strftime("%Y-%m-%d")]
     words = body_words(rng, uid, own)
     if ident == "none" and words[0] not in ("foo", "bar", "Baz_1", "x1", "UPPER", "snake_case"):
         # the first identifier of an item is its identity position: keep it an ordinary word
@@ -169,7 +170,7 @@ def gen_header(rng, uid, level, rich=False):
     m = Meta()
     title = ["Section", "L%d" % level] + deco_words(rng, uid, m, date_values=False, n=rng.randint(2, 4) if rich else None)
     if rng.random() < 0.4:
-        m.date = rand_date(rng, 2000, 2999)
+        m.date = rand_date(rng, 2000, MAX_YEAR)
         title.append(m.date.strftime("%Y-%m-%d"))
     return {"level": level, "title": " ".join(title), "meta": m}
 
@@ -208,7 +209,7 @@ def gen_page(rng, skeleton=None, max_sections=5, rich=False):
     head_meta = Meta()
     title = ["#", "Title"] + deco_words(rng, uid, title_meta, date_values=False)
     if rng.random() < 0.5:
-        title_meta.date = rand_date(rng, 2000, 2999)
+        title_meta.date = rand_date(rng, 2000, MAX_YEAR)
         title.append(title_meta.date.strftime("%Y-%m-%d"))
     head_lines = [" ".join(title)]
     for _ in range(rng.randint(0, 2)):
